@@ -99,6 +99,8 @@ func goEnv() []string {
 	return env
 }
 
+var totalRestarts int
+
 // build compiles the worker against the library tree (default /repo).
 func build(race bool) (string, error) {
 	bin := filepath.Join(root, "bin", "vmon")
@@ -341,8 +343,10 @@ func run(id, tier string, seed uint64) int {
 				extraViol = append(extraViol, h.Viol{Prop: id, Sub: subName, Idx: p.idx, Seed: seed, Tier: tier,
 					Msg: reason, Detail: map[string]interface{}{"log_head": logTxt, "input_note_hex": fmt.Sprintf("%x", p.note), "input_note": string(p.note)}})
 				s.restarts++
-				if !okp || s.restarts > 40 {
-					inconclusive = append(inconclusive, fmt.Sprintf("shard %d gave up after %d restarts", s.id, s.restarts))
+				totalRestarts++
+				if !okp || s.restarts > 40 || totalRestarts > 64 {
+					// (the verdict is a violation already; more restarts only add more witnesses of the same kind)
+					inconclusive = append(inconclusive, fmt.Sprintf("shard %d gave up after %d restarts (%d in this run)", s.id, s.restarts, totalRestarts))
 					continue
 				}
 				s.part++
